@@ -345,6 +345,16 @@ theorem C04_written_one_index_kernels_frame (arith : OpTok → α → α → Exc
   have := C04_assign_frame (fOf arith sig.op) m s src ix hix q hq
   exact ⟨this.1, this.2.1, this.2.2.2⟩
 
+/-- D1 through the tables: the `[1,1]` arm of `op_assign!` compiles `MatrixAssignScalar` (listed in
+    `knownArmDeviations`), the struct of `x[i] = v`, whose kernel `assign_1d_scalar` is written with `=`: under
+    `x[1] += 5` it stores 5 where the statement denotes 6. -/
+theorem C04_counterexample_D1 :
+    (⟨["Formula"], "1,1", "MatrixAssignScalar", false⟩ : OpArm) ∈ Gen.AssignKernels.opArms ∧
+    ("assign_1d_scalar", (⟨none, .std (.scalar 0 true), true, false, .whole, .set⟩ : KIR)) ∈ Gen.AssignKernels.kernels ∧
+    run natArith ⟨none, .std (.scalar 0 true), true, false, .whole, .set⟩ (⟨1, 3, [1, 2, 3]⟩ : Mat Nat) [.scalar 1] (.scalar 5)
+      = (⟨1, 3, [5, 2, 3]⟩, .ok ()) ∧
+    assign1 (natArith .add) (⟨1, 3, [1, 2, 3]⟩ : Mat Nat) (.scalar 1) (.scalar 5) = (⟨1, 3, [6, 2, 3]⟩, .ok ()) := by decide
+
 /-! non-vacuity: `x[[3 1]] += [10 20]` through the extracted `add_assign_1d_range_vec`, `x[[2 1], :] = 9` through
     `assign_2d_range_all`, a failing run that has written (C04-D4); kernels with the loops of a listed deviation, with
     `-=` under `+=`, without the `- 1`, with `source[0]`, are refused -/
